@@ -73,7 +73,12 @@ func polygamma_atinfinityplus(n int, x float64) float64 {
   if n > factorialMax && float64(n)*float64(n) > MaxLogFloat64 {
     part_term = 0.0
   } else {
-    part_term = Factorial(n - 1)*math.Pow(x, float64(-n-1))
+    // a subnormal power has lost most of its bits, treat it like an underflow to zero
+    if p := math.Pow(x, float64(-n-1)); p < 0x1p-1022 {
+      part_term = 0.0
+    } else {
+      part_term = Factorial(n - 1)*p
+    }
   }
   if part_term == 0 {
     v, _ := math.Lgamma(float64(n))
